@@ -422,6 +422,13 @@ func (r *Report) finish(verifDir string, p *Prog, configs []string, wall float64
 		}
 		return a.Msg < b.Msg
 	})
+	if show := os.Getenv("CEDARCHECK_SHOW"); show != "" {
+		for _, o := range r.Obligs {
+			if strings.Contains(o.Construct, show) || strings.Contains(o.Rule, show) {
+				fmt.Printf("SHOW %s %s %s %s: %s\n", o.V, o.Pos, o.Rule, o.Construct, o.Msg)
+			}
+		}
+	}
 	nViol, nUndec, nKnown, nOK := 0, 0, 0, 0
 	var bad []Oblig
 	knownPrinted := map[string]bool{}
